@@ -1,9 +1,12 @@
 """Identity map (inc/SM/Identity.hpp): main() uses it in place of the wake kick (no impedance) and of the
-Fokker-Planck step (no damping).  The model is the copy: out = in for every cell of every bunch (theorem
-C01_identity_conserves; slice form: bunch b of the copy is bunch b of the input).  Oracle on the implementation:
-after apply() the target grid equals the source grid bit for bit for every bunch, whatever the target held before,
-and the source is untouched."""
+Fokker-Planck step (no damping).  The model is the copy loop with the element count and indices generated from the
+source (Gen/Gen_Identity.v, Model/WakeUpdate.v: ident_apply; theorems C01_identity_* / C08_identity_slice).  Oracle on
+the implementation: after apply() the target grid equals the source grid bit for bit for every bunch, whatever the
+target held before, the plain sum over all cells of all bunches is the same (C01), and the source is untouched.
+Correspondence: the extracted model (model_run, case kind `ident`) on the same source/target grids, exactly."""
+from fractions import Fraction
 from vp_common import *
+import vp_coq
 
 
 def ident_subcheck(ctx, pid):
@@ -36,13 +39,32 @@ def ident_subcheck(ctx, pid):
                               observed=str(o[sl][k]), expected=str(exp[sl][k]),
                               sig=dict(kind="ident", clause="copy" if pid != "C08" else "slice", b_ge1=b >= 1))
                 break
+        if pid == "C01" and all(not isinstance(v, str) for v in o) and sum(o) != sum(exp):
+            ctx.violation("impl-oracle", "the identity step changes the total charge of a %d-bunch grid" % nb,
+                          case=dict(kind="ident", n=n, nb=nb, data=[fhex(v) for v in din], target_before=[fhex(v) for v in dout]),
+                          observed=str(sum(o)), expected=str(sum(exp)), sig=dict(kind="ident", clause="conservation"))
         if i2 != exp:
             ctx.violation("impl-oracle", "the identity step changes its input grid", case=dict(kind="ident", n=n, nb=nb),
                           sig=dict(kind="ident", clause="input"))
         ctx.case_done(("ident", cid), nb > 1 and any(v != 0 for v in din[n * n:]))
         ctx.count("ident:nb%d" % nb)
-    from fractions import Fraction as _F
-    return []
-
-
-from fractions import Fraction
+    # correspondence with the extracted copy model (exact: a copy does not round)
+    dis = []
+    mtext = "".join("ident %s %d %d %s %s\n" % (cid, n, nb, " ".join(qtok(Fraction(v)) for v in din), " ".join(qtok(Fraction(v)) for v in dout))
+                    for cid, n, nb, din, dout in cases)
+    try:
+        rc, out, err = run_driver(vp_coq.model_path("run"), mtext)
+        if rc != 0:
+            raise RuntimeError(err[-300:])
+        mres = parse_cases(out)
+    except Exception as e:
+        return [dict(case=dict(kind="ident"), detail="identity model unavailable: %s" % str(e)[:300],
+                     sig=dict(kind="ident", stage="correspondence", clause="model-unavailable"))]
+    for cid, n, nb, din, dout in cases:
+        o = [parse_c(t) for t in res[cid]["out"][0]]
+        m = [parse_q(t) for t in mres[cid]["out"][0]]
+        if o != m:
+            k = next(j for j in range(len(o)) if o[j] != m[j])
+            dis.append(dict(case=dict(kind="ident", n=n, nb=nb, data=[fhex(v) for v in din], target_before=[fhex(v) for v in dout]),
+                            detail=dict(cell=k, impl=str(o[k]), model=str(m[k])), sig=dict(kind="ident", stage="correspondence")))
+    return dis
